@@ -24,7 +24,7 @@ def c_twin(draw):
 
 @st.composite
 def cpp_twin(draw, tier: str):
-    s = draw(cppstrat.cpp_program(tier, (4, 7), services=False))
+    s = draw(cppstrat.cpp_program(tier, (4, 7), services=False, dup_ids=False))
     vals = {st_.name: draw(st.lists(S.struct_value(s, st_.name, cppstrat.VCFG), min_size=2, max_size=6)) for st_ in s.structs}
     s2, moved = draw(c15.permuted(s))
     return s, s2, moved, vals
